@@ -25,7 +25,7 @@ def check_C01(tier, seed):
              "bytes, unicode, hex around the >5 threshold, dictionary cardinality around len/2 and 254..257, and 65535..65537 oracle-only), mixed-type buffers, "
              "8 null patterns, lengths around 8/64/128 multiples and around 1024/2048, 3 push styles (runs, split runs, one push per value with "
              "push_nulls(gap)), 6 batch sizes; c01_api: 1-4 columns x 1-3 table buffers x 1-3 batches, ColumnData "
-             "dense/sparse/i64/sparse-i64/string/mixed/empty built by TableBuffer::new or push_row_and_timestamp, native or "
+             "dense/sparse/i64/sparse-i64/string (also shorter than the batch)/mixed/empty built by TableBuffer::new or push_row_and_timestamp, table buffers without rows, native or "
              "serialize->deserialize, memory-only or on disk with force_flush, mem_lz4 on/off, row and column format; "
              "c01_csv: typed tables rendered to CSV text (ints, floats via Debug, non-numeric strings, empty = NULL), "
              "load_csv with allow_nulls_all_columns and partition sizes below / at / above the row count (oracle only). "
